@@ -21,7 +21,7 @@ def run(ctx):
     trace = os.path.join(ctx.work, "fault-trace.ndjson")
     tmp = os.path.join(ctx.work, "files")
     os.makedirs(tmp, exist_ok=True)
-    nh, hl = (40, 60) if quick else (400, 100)
+    nh, hl = (40, 60) if quick else (1600, 100)
     d = ctx.vh(["drive-fault", "histories=%d" % nh, "len=%d" % hl, "out=" + trace, "dir=" + tmp], timeout=3000)
     nev, rejects = ctx.validate_histories("Trace_Fault", trace, procs=8, per_job=(5 if quick else 25))
     ctx.validated += nev - len(rejects)
